@@ -44,7 +44,7 @@ def run(pid, tier, spec, replay_file=None, write=True):
         if 'CASES-COMPLETE' not in out:
             raise Infra('observation check did not complete:\n' + out[-3000:])
         gen, dist = tlc_stats(out)
-        bad = [int(x) for x in re.findall(r'<<"BAD", (\d+)', out)]
+        bad = sorted({int(x) for x in re.findall(r'<<"BAD", (\d+)', out)})
     finally:
         shutil.rmtree(tmp, ignore_errors=True)
     kf = [f for f in known_findings().get('findings', []) if f.get('property') == pid]
